@@ -39,7 +39,7 @@ class Box:
     """Numeric seeding of inputs. Any of the facts may be disabled (None)."""
 
     def __init__(self, *, ranges: bool = False, degrees: bool = False, teams=(2, 8), players=(1, 16),
-                 mu=(-20.0, 20.0), sigma=(1e-4, 10.0), sigma_open_lo=False, beta=(1.0, 1.0), tau=(0.0, 1e6), tau_open_lo=False,
+                 mu=(-20.0, 20.0), sigma=(1e-4, 10.0), sigma_open_lo=False, beta=(1.0, 1.0), tau=(0.0, 10.0), tau_open_lo=False,
                  kappa=(0.0, 1e-2), gamma=(0.0, 1e6)):
         self.ranges, self.degrees = ranges, degrees
         self.teams, self.players = teams, players
